@@ -137,9 +137,22 @@ func (cr *caseRun) run(gombok string) {
 		cr.harness("write module", err.Error())
 		return
 	}
+	altUsed := map[string]bool{}
 	for _, p := range c.Pkgs {
 		if err := cr.write(p.Name+"/"+p.Name+".go", emitPkg(p)); err != nil {
 			cr.harness("write source", err.Error())
+			return
+		}
+		for _, x := range p.Derives {
+			if x.DP != "" {
+				altUsed[x.DP] = true
+			}
+		}
+	}
+	// derive packages of the scratch module itself (no directives in them: gombok is not run there)
+	for dp := range altUsed {
+		if err := cr.write(dp+"/"+dp+".go", altDerivePkgs[dp]); err != nil {
+			cr.harness("write derive package", err.Error())
 			return
 		}
 	}
@@ -178,6 +191,9 @@ func (cr *caseRun) run(gombok string) {
 	// 2. the generated code compiles
 	w.Site("gombok/derive/compile")
 	res := runProc(cr.dir, 20*time.Minute, childEnv(), "go", "build", "./...")
+	for try := 0; try < 2 && res.exit != 0 && cacheTrimmed(res.out); try++ {
+		res = runProc(cr.dir, 20*time.Minute, childEnv(), "go", "build", "./...")
+	}
 	w.Add("compiles", 1)
 	if res.timedOut {
 		cr.harness("go build timed out (wall clock, not a verdict)", res.out)
@@ -290,6 +306,10 @@ func (cr *caseRun) run(gombok string) {
 		go func(k int, b built) {
 			defer wg.Done()
 			compiled[k] = runProc(cr.dir, 20*time.Minute, childEnv(), "go", "test", "-c", "-o", b.bin, "./"+b.p.Name)
+			for try := 0; try < 2 && compiled[k].exit != 0 && cacheTrimmed(compiled[k].out); try++ {
+				// the shared Go build cache was trimmed under the build (sibling checks do that when the disk fills): not a verdict, retry
+				compiled[k] = runProc(cr.dir, 20*time.Minute, childEnv(), "go", "test", "-c", "-o", b.bin, "./"+b.p.Name)
+			}
 		}(k, b)
 	}
 	wg.Wait()
@@ -327,6 +347,11 @@ func (cr *caseRun) run(gombok string) {
 		last := c.Pkgs[len(c.Pkgs)-1]
 		w.Sample(map[string]any{"shapes": c.Shapes, "derivations": ds, "source_" + last.Name: trunc(cr.files[last.Name+"/"+last.Name+".go"], 2500)})
 	}
+}
+
+// cacheTrimmed: the go command failed because a file of the shared build cache vanished under it.
+func cacheTrimmed(out string) bool {
+	return strings.Contains(out, "/go-build/") && strings.Contains(out, "no such file or directory")
 }
 
 func firstLine(s, contains string) string {
@@ -455,6 +480,32 @@ func (cr *caseRun) runLaws(p *Pkg, bin string, tgs []lawTarget) bool {
 		}
 		if x.Implicit {
 			w.Add("implicit_derivations_from_recursive_true", 1)
+			if via := x.Decl.Via; via != "" {
+				// forced case ondemand: which container kind the on-demand instance is reached through, at which depth
+				w.Add("ondemand.via-"+via+"."+tcName[x.TC], 1)
+				switch {
+				case strings.HasPrefix(via, "direct-below-"):
+					w.Add("ondemand.depth-2."+tcName[x.TC], 1)
+				case strings.Contains(via, "-below-"):
+					w.Add("ondemand.depth-3."+tcName[x.TC], 1)
+				default:
+					w.Add("ondemand.depth-1."+tcName[x.TC], 1)
+				}
+			}
+		}
+		if p.Tag != "" {
+			// forced case multi: directive contexts that ran, per order of the package
+			ctx := x.derivePkg()
+			if x.Recursive {
+				ctx += "+recursive"
+			}
+			if x.Implicit {
+				ctx += "+on-demand"
+			}
+			w.Add("multi."+p.Tag+"."+tcName[x.TC]+"."+ctx, 1)
+		}
+		if x.DP != "" {
+			w.Add("derivations_through_alternative_derive_package", 1)
 		}
 		if len(x.Decl.Params) > 0 {
 			w.Add("generic_derivations", 1)
@@ -465,7 +516,7 @@ func (cr *caseRun) runLaws(p *Pkg, bin string, tgs []lawTarget) bool {
 		// resolution classes observed in the fields
 		g := &lawGen{p: p, memo: map[string]string{}}
 		seen := map[string]bool{}
-		s := sem{int(x.TC), p, x.Recursive}
+		s := sem{int(x.TC), p, x.Recursive, x.DP}
 		var ts []*TX
 		if x.Decl.IsStruct {
 			for _, f := range x.Decl.Fields {
@@ -581,7 +632,7 @@ func main() {
 		},
 		CaseCPUBudget: 600,
 		WorkerProcs:   4,
-		Rule: "case = scratch Go module (1-2 packages) drawn from a grammar: a type's package `tp` (an @fp.Value struct of basic fields with hand-written Eq/Ord/Hashable/Monoid instances as var or func, a plain public struct, an @fp.Value struct with instances derived in tp, named basic and slice types) and a working package `wp` with 2-4 productions out of {@fp.Value struct, plain struct with private fields, named non-struct type + holder, generic struct with used and unused type parameters + holder of an instantiation, pointer-recursive struct, mutually recursive pair, 20/21/22/23/30-field struct}; field types from basic kinds, []byte, slices, fp.Seq, fp.Option, pointers, Go maps, fp.Tuple2, hlist, nested/imported named types, type parameters (nesting depth <= 3); @fp.Derive directives for random subsets of Eq/Ord/Hashable/Monoid/Clone/Show with and without recursive=true, directives for imported types, local overriding instances (case-insensitive EqString/OrdString/HashableString, reversed OrdInt/MonoidString, MonoidInt = sum|product, EqSeq(eqT, ordT) with @fp.ImportGiven, a local instance for an imported type). One production per batch is forced so that every run sees each kind. After the random batches come forced cases (one batch each; thorough: four draws of each): nestvis:<mix> for mix in {all-exported, all-unexported, mixed} = a working package with nested PLAIN structs of that visibility mix holding a slice, a pointer, []byte (and a Go map in a second one) used directly and inside a slice/Option/pointer/Seq/map by outer structs that derive all six typeclasses (four with the map) under a plain directive (nested struct has its own directives) and under recursive=true (nested instance expected on demand), plus a package wq whose outer struct derives Clone while NOTHING is declared for the nested struct; tpgeneric = a generic struct declared in tp with its instance functions derived in tp, instantiated as a field type of two holders in wp. gombok built from the working tree generates the code; `go build` must accept every generated instance; a law test written from the SPEC (same package; reference = documented resolution order local -> type's package -> derive package, field-wise) runs on a pool of 4 base values + 2 near-equal values per field position (differ in exactly that field). distinct_nontrivial = distinct (typeclass, shape) pairs of derivations whose law test ran to completion, shape = multiset of field kinds x arity x flags (recursive=true, implicit, @fp.Value, imported, generic used/total, recursive type).",
+		Rule: "case = scratch Go module (1-2 packages) drawn from a grammar: a type's package `tp` (an @fp.Value struct of basic fields with hand-written Eq/Ord/Hashable/Monoid instances as var or func, a plain public struct, an @fp.Value struct with instances derived in tp, named basic and slice types) and a working package `wp` with 2-4 productions out of {@fp.Value struct, plain struct with private fields, named non-struct type + holder, generic struct with used and unused type parameters + holder of an instantiation, pointer-recursive struct, mutually recursive pair, 20/21/22/23/30-field struct}; field types from basic kinds, []byte, slices, fp.Seq, fp.Option, pointers, Go maps, fp.Tuple2, hlist, nested/imported named types, type parameters (nesting depth <= 3); @fp.Derive directives for random subsets of Eq/Ord/Hashable/Monoid/Clone/Show with and without recursive=true, directives for imported types, local overriding instances (case-insensitive EqString/OrdString/HashableString, reversed OrdInt/MonoidString, MonoidInt = sum|product, EqSeq(eqT, ordT) with @fp.ImportGiven, a local instance for an imported type). One production per batch is forced so that every run sees each kind. After the random batches come forced cases (one batch each; thorough: four draws of each): nestvis:<mix> for mix in {all-exported, all-unexported, mixed} = a working package with nested PLAIN structs of that visibility mix holding a slice, a pointer, []byte (and a Go map in a second one) used directly and inside a slice/Option/pointer/Seq/map by outer structs that derive all six typeclasses (four with the map) under a plain directive (nested struct has its own directives) and under recursive=true (nested instance expected on demand), plus a package wq whose outer struct derives Clone while NOTHING is declared for the nested struct; tpgeneric = a generic struct declared in tp with its instance functions derived in tp, instantiated as a field type of two holders in wp; multi = four working packages whose directives differ in CONTEXT, in both orders: (mp / mr) nested plain structs with no instance used by outer structs under a plain Clone directive and under a recursive=true Clone directive, plain first / recursive first - the recursive directive must derive the nested Clone on demand whatever an earlier directive resolved; (dl / da) structs with string fields (direct, in slice / Seq / Option / pointer / map value / Tuple2) deriving Eq and Show alternately through the library's eq / show and through the scratch module's own COMPLETE derive packages foldeq (case-insensitive String, everything else wrapping eq) / upshow (String rendered in upper case between marks), library first / alternative first, plus recursive=true directives of both kinds with a nested struct derived on demand (inherits the directive's derive package) and structs holding a struct derived through the other package; ondemand = one package in which only two root structs carry (recursive=true) directives and every instance below has to be derived on demand: root field k holds a plain struct N<k> inside container kind k of {slice, Seq, Option, pointer, Tuple2, map value}, N<k> holds a leaf struct directly (depth 2) and another inside the next container kind (depth 3), leaves hold a slice, a pointer and basics. Clone laws run on the pool plus three storage shapes applied at every position at once: every slice / Seq / []byte empty WITH spare capacity and every map empty non-nil; one-element containers of those; one-element slices with spare capacity - judged by the reachable-address walk (a backing array with capacity counts even when the slice is empty) and by the append-to-both oracle (append a marked element to the original's slice, a zero element to the clone's: the original's element must survive). gombok built from the working tree generates the code; `go build` must accept every generated instance; a law test written from the SPEC (same package; reference = documented resolution order local -> type's package -> derive package, field-wise) runs on a pool of 4 base values + 2 near-equal values per field position (differ in exactly that field). distinct_nontrivial = distinct (typeclass, shape) pairs of derivations whose law test ran to completion, shape = multiset of field kinds x arity x flags (recursive=true, implicit, @fp.Value, imported, generic used/total, recursive type).",
 		Assumptions: []string{
 			"struct shapes come from the grammar above; shapes outside it (arrays, channels, unnamed interfaces, named types over library structs such as `type T fp.Option[int]`, recursion not through a pointer) are not covered",
 			"values are a constructed pool per type (bases, near-equal variants at every field position, nil vs empty, equal-but-not-identical pointers), not all values; floats are exact dyadic non-negative numbers, no NaN",
@@ -593,11 +644,11 @@ func main() {
 		Floors: func(tier string) map[string]int64 {
 			f := map[string]int64{"derivations.Eq": 3, "derivations.Ord": 3, "derivations.Hashable": 3, "derivations.Monoid": 3, "derivations.Clone": 3, "derivations.Show": 3,
 				"pairs_evaluated": 5000, "triples_evaluated": 1000, "overriding_instance_derivations": 1, "recursive_type_derivations": 1, "generic_derivations": 1,
-				"law.Eq.near_equal_pairs": 100, "cases.conclusive": 8,
+				"law.Eq.near_equal_pairs": 100, "cases.conclusive": 10,
 				"resolution.local-override": 1, "resolution.type-package": 1, "derivations_over_21_fields": 1,
 				"implicit_derivations_from_recursive_true": 1, "law.Clone.fields_with_storage_in_nested_plain_struct": 30}
 			if tier == "thorough" {
-				f["cases.conclusive"] = 110
+				f["cases.conclusive"] = 112
 			}
 			// nested plain structs: every visibility mix x typeclass x {plain, recursive=true} was judged by a
 			// law test of the outer type; the Clone-without-instance regime was at least observed
@@ -610,6 +661,37 @@ func main() {
 				}
 				f["nestvis."+mix+".Clone.plain-without-instance.observed"] = 1
 			}
+			// forced case ondemand: an on-demand instance was reached through every container kind and judged, at depth 1, 2 and 3
+			for _, k := range onDemandKinds {
+				for t := Eq; t < nTC; t++ {
+					if k == KMap && !mapTCs.Has(t) {
+						continue
+					}
+					if t == Monoid && (k == KSlice || k == KSeq || k == KMap) {
+						continue // monoid.MergeSlice / MergeSeq / MergeGoMap need no instance for the element
+					}
+					f["ondemand.via-"+viaName(k)+"."+tcName[t]] = 1
+				}
+			}
+			for t := Eq; t < nTC; t++ {
+				f["ondemand.depth-1."+tcName[t]], f["ondemand.depth-2."+tcName[t]], f["ondemand.depth-3."+tcName[t]] = 3, 3, 1
+			}
+			// forced case multi: both orders of plain / recursive=true Clone directives sharing a nested struct, both
+			// orders of library / alternative derive package for Eq and Show, incl. on-demand instances of each
+			for _, tag := range []string{"plain-first", "recursive-first"} {
+				f["multi."+tag+".Clone.clone+recursive"] = 1
+				f["multi."+tag+".Clone.clone+recursive+on-demand"] = 1
+			}
+			for _, tag := range []string{"library-first", "alternative-first"} {
+				for _, k := range []string{"Eq.eq", "Eq.foldeq", "Show.show", "Show.upshow"} {
+					f["multi."+tag+"."+k] = 2
+					f["multi."+tag+"."+k+"+recursive"] = 1
+					f["multi."+tag+"."+k+"+recursive+on-demand"] = 1
+				}
+			}
+			f["law.Show.derive_package_renderings_checked"] = 100
+			// Clone: empty slices with spare capacity and zero-length maps were cloned, the append-to-both oracle ran
+			f["law.Clone.empty_slices_with_capacity"], f["law.Clone.slices_with_spare_capacity_appended_to"], f["law.Clone.zero_length_maps"] = 100, 200, 10
 			return f
 		},
 		Finish: func(tier string, m *vrt.Merged, cov map[string]any) {
